@@ -297,8 +297,9 @@ fn check_datadog(batch: &[Rec], reqs: &[HttpReq]) -> Vec<Viol> {
         if int("duration") != Some(r.dur as i128) {
             bad("duration", format!("{:?}", int("duration")), r.dur.to_string());
         }
-        if st("service").as_deref() != Some("svc") || st("resource").as_deref() != Some("res") || st("type").as_deref() != Some("web") {
-            bad("service/resource/type", format!("{:?}/{:?}/{:?}", st("service"), st("resource"), st("type")), "svc/res/web".into());
+        let rc = cfg();
+        if st("service").as_deref() != Some(rc.service.as_str()) || st("resource").as_deref() != Some(rc.resource.as_str()) || st("type").as_deref() != Some(rc.ty.as_str()) {
+            bad("service/resource/type", format!("{:?}/{:?}/{:?}", st("service"), st("resource"), st("type")), format!("{:?}/{:?}/{:?}", rc.service, rc.resource, rc.ty));
         }
         if int("error_code").is_none() {
             bad("error_code", "missing".into(), "an integer".into());
@@ -343,6 +344,17 @@ fn check_datadog(batch: &[Rec], reqs: &[HttpReq]) -> Vec<Viol> {
         }
     }
     out
+}
+
+fn otel_kind(k: u8) -> opentelemetry::trace::SpanKind {
+    use opentelemetry::trace::SpanKind;
+    match k % 5 {
+        0 => SpanKind::Client,
+        1 => SpanKind::Server,
+        2 => SpanKind::Producer,
+        3 => SpanKind::Consumer,
+        _ => SpanKind::Internal,
+    }
 }
 
 fn check_otel(batch: &[Rec], got: &[opentelemetry_sdk::trace::SpanData]) -> Vec<Viol> {
@@ -390,11 +402,11 @@ fn check_otel(batch: &[Rec], got: &[opentelemetry_sdk::trace::SpanData]) -> Vec<
                 }
             }
         }
-        if s.span_kind != SpanKind::Server {
-            bad("span_kind", format!("{:?}", s.span_kind));
+        if s.span_kind != otel_kind(cfg().kind) {
+            bad("span_kind", format!("{:?}, configured {:?}", s.span_kind, otel_kind(cfg().kind)));
         }
-        if s.instrumentation_scope.name() != "verif-scope" {
-            bad("scope", s.instrumentation_scope.name().to_string());
+        if s.instrumentation_scope.name() != cfg().scope {
+            bad("scope", format!("{:?}, configured {:?}", s.instrumentation_scope.name(), cfg().scope));
         }
         if out.len() > 6 {
             break;
@@ -417,6 +429,9 @@ enum Case {
         #[serde(default)]
         prior: Vec<Plan>,
     },
+    /// `inner` with generated constructor arguments of the reporter (service name, Datadog
+    /// resource / type, OpenTelemetry span kind and scope) instead of the default ones
+    With { cfg: RepCfg, inner: Box<Case> },
 }
 
 struct Env {
@@ -426,7 +441,14 @@ struct Env {
 }
 
 fn run_case(env: &Env, c: &Case) -> Outcome {
+    if let Case::With { cfg: rc, inner } = c {
+        set_cfg(rc);
+        let o = run_case(env, inner);
+        set_cfg(&RepCfg::default());
+        return o;
+    }
     match c {
+        Case::With { .. } => unreachable!(),
         Case::Jaeger { batch } => run_jaeger(&env.udp, batch, "C19"),
         Case::JaegerPlan { plan, prior } => {
             let pr: Vec<Vec<Rec>> = prior.iter().map(realise).collect();
@@ -434,7 +456,7 @@ fn run_case(env: &Env, c: &Case) -> Outcome {
         }
         Case::Datadog { batch } => {
             while env.http_rx.try_recv().is_ok() {}
-            let mut rep = fastrace_datadog::DatadogReporter::new(format!("127.0.0.1:{}", env.http_port).parse().unwrap(), "svc", "res", "web");
+            let mut rep = fastrace_datadog::DatadogReporter::new(format!("127.0.0.1:{}", env.http_port).parse().unwrap(), cfg().service, cfg().resource, cfg().ty);
             rep.report(batch.iter().map(|r| r.to_record()).collect());
             let mut reqs = vec![];
             if !batch.is_empty() {
@@ -455,9 +477,9 @@ fn run_case(env: &Env, c: &Case) -> Outcome {
             let cap = Capture::default();
             let mut rep = fastrace_opentelemetry::OpenTelemetryReporter::new(
                 cap.clone(),
-                SpanKind::Server,
-                std::borrow::Cow::Owned(opentelemetry_sdk::Resource::builder().with_service_name("svc").build()),
-                InstrumentationScope::builder("verif-scope").build(),
+                otel_kind(cfg().kind),
+                std::borrow::Cow::Owned(opentelemetry_sdk::Resource::builder().with_service_name(cfg().service).build()),
+                InstrumentationScope::builder(cfg().scope).build(),
             );
             rep.report(batch.iter().map(|r| r.to_record()).collect());
             let got = cap.0.lock().unwrap().clone();
@@ -467,6 +489,21 @@ fn run_case(env: &Env, c: &Case) -> Outcome {
 }
 
 fn case_strategy(variant: &str) -> BoxedStrategy<Case> {
+    // 40 % of the cases construct the reporter with generated arguments
+    let text = prop_oneof![
+        3 => "[a-z][a-z0-9._-]{0,20}",
+        1 => Just(String::new()),
+        1 => proptest::collection::vec(any::<char>(), 1..40).prop_map(|v| v.into_iter().filter(|c| *c != '\0').collect::<String>()),
+        1 => "[a-z]{60,300}",
+        1 => Just("服务名称-サービス-😀".to_string()),
+    ];
+    let rc = (text.clone(), text.clone(), text.clone(), 0u8..5, text).prop_map(|(service, resource, ty, kind, scope)| RepCfg { service, resource, ty, kind, scope });
+    (case_strategy_inner(variant), proptest::bool::weighted(0.4), rc)
+        .prop_map(|(c, with, cfg)| if with { Case::With { cfg, inner: Box::new(c) } } else { c })
+        .boxed()
+}
+
+fn case_strategy_inner(variant: &str) -> BoxedStrategy<Case> {
     match variant {
         "jaeger" => batch_c19().prop_map(|batch| Case::Jaeger { batch }).boxed(),
         "datadog" => prop_oneof![
@@ -519,7 +556,14 @@ fn case_strategy(variant: &str) -> BoxedStrategy<Case> {
 }
 
 fn nontrivial(c: &Case) -> bool {
+    if let Case::With { cfg: rc, inner } = c {
+        set_cfg(rc);
+        let r = nontrivial(inner);
+        set_cfg(&RepCfg::default());
+        return r;
+    }
     match c {
+        Case::With { .. } => unreachable!(),
         Case::Jaeger { batch } | Case::Datadog { batch } | Case::Otel { batch } => {
             batch.len() >= 2
                 && batch.iter().any(|r| r.span >> 63 == 1 || r.trace_hi >> 63 == 1 || r.parent >> 63 == 1 || r.trace_lo >> 63 == 1)
@@ -527,7 +571,7 @@ fn nontrivial(c: &Case) -> bool {
         }
         Case::JaegerPlan { plan, .. } => {
             let recs = realise(plan);
-            let total = reference_emit_batch(SERVICE, &recs).len();
+            let total = reference_emit_batch(&cfg().service, &recs).len();
             let n = plan.items.len();
             total >= UDP_LIMIT && plan.items.iter().take(n.saturating_sub(1)).any(|(k, _)| *k >= 2)
         }
@@ -535,13 +579,20 @@ fn nontrivial(c: &Case) -> bool {
 }
 
 fn label(c: &Case) -> String {
+    if let Case::With { cfg: rc, inner } = c {
+        set_cfg(rc);
+        let r = format!("{} (generated reporter arguments)", label(inner));
+        set_cfg(&RepCfg::default());
+        return r;
+    }
     match c {
+        Case::With { .. } => unreachable!(),
         Case::Jaeger { batch } => format!("jaeger batch of {}", bucket(batch.len())),
         Case::Datadog { batch } => format!("datadog batch of {}", bucket(batch.len())),
         Case::Otel { batch } => format!("otel batch of {}", bucket(batch.len())),
         Case::JaegerPlan { plan, .. } => {
             let recs = realise(plan);
-            let total = reference_emit_batch(SERVICE, &recs).len();
+            let total = reference_emit_batch(&cfg().service, &recs).len();
             let over = plan.items.iter().filter(|(k, _)| *k == 3).count();
             let near = plan.items.iter().filter(|(k, _)| *k == 2).count();
             format!(
